@@ -134,8 +134,12 @@ def main(prop, tier, seed, argv):
             pr, sd = j
             out_f = os.path.join(work, "conc-%s-%d.ndjson" % (pr, sd))
             env = dict(C.ENV, GORACE="halt_on_error=0 exitcode=0")
-            p = subprocess.run([C.VERIF + "/.build/ykh-race", "conc", "-profile", pr, "-seed", str(sd), "-ms", str(ms), "-workers", "4", "-out", out_f],
-                               cwd=work, env=env, stdout=subprocess.PIPE, stderr=subprocess.PIPE, text=True, timeout=900)
+            try:
+                p = subprocess.run([C.VERIF + "/.build/ykh-race", "conc", "-profile", pr, "-seed", str(sd), "-ms", str(ms), "-workers", "4", "-out", out_f],
+                                   cwd=work, env=env, stdout=subprocess.PIPE, stderr=subprocess.PIPE, text=True, timeout=420)
+            except subprocess.TimeoutExpired as e:
+                # the driver gives up on stuck goroutines after 2 x 30 s: a session that does not end at all is itself hung in the core
+                return dict(job=j, crash="the concurrent session did not end within 420 s (session length %d ms): %s" % (ms, str(e.stderr or "")[-3000:]), res=None, races=[], file=None)
             if p.returncode != 0 or not os.path.exists(out_f):
                 m = re.search(r"^(panic:|fatal error:)[^\n]*", p.stderr, re.M)
                 if m and "yunikorn-core/pkg/" in p.stderr:
